@@ -256,10 +256,14 @@ func c11(e *Env) {
 		ls, _ := e.F.Levels(v)
 		for _, l := range ls {
 			e.misorderedSentinel(l, v.Name == "v2")
+			// "unknown value code -> invalid value" needs every non-code to parse to the unknown constant
+			for _, fv := range l.Metrics {
+				e.metricTables(l, fv, v.Metric(fv.Name()))
+			}
 		}
 	}
 	e.sentinelProvenance()
-	e.keepRules("token-split-kind", "sentinel-pairing", "deferred-error", "reject-path", "sentinel-provenance", "sentinel-distinct", "version-prefix", "duplicate-test", "token-shape", "decode-one", "decoder-analysis", "table-immutability")
+	e.keepRules("parse", "token-split-kind", "sentinel-pairing", "deferred-error", "reject-path", "sentinel-provenance", "sentinel-distinct", "version-prefix", "duplicate-test", "token-shape", "decode-one", "decoder-analysis", "table-immutability")
 	c.Floor("sentinel-pairing", 90)
 	c.Floor("deferred-error", 6)
 	c.Floor("sentinel-provenance", 25)
@@ -412,18 +416,26 @@ func (e *Env) sentinelProvenance() {
 // singleSentinel: the value is nil, errs.Wrap(sentinel...), errs.Wrap(v') with v' single-sentinel,
 // the error result of a package function (checked itself), or a φ of such values.
 func (e *Env) singleSentinel(bld *ir.Builder, v ssa.Value, depth int) bool {
-	if depth > 10 {
+	return e.singleSentinelSeen(bld, v, depth, map[ssa.Value]bool{})
+}
+
+func (e *Env) singleSentinelSeen(bld *ir.Builder, v ssa.Value, depth int, seen map[ssa.Value]bool) bool {
+	if depth > 20 {
 		return false
 	}
 	switch x := v.(type) {
 	case *ssa.Const:
 		return x.Value == nil
 	case *ssa.Phi:
+		if seen[x] {
+			return true // a cycle of φ-nodes adds no new source
+		}
+		seen[x] = true
 		for _, ed := range x.Edges {
 			if ed == ssa.Value(x) {
 				continue
 			}
-			if !e.singleSentinel(bld, ed, depth+1) {
+			if !e.singleSentinelSeen(bld, ed, depth+1, seen) {
 				return false
 			}
 		}
@@ -458,7 +470,7 @@ func (e *Env) singleSentinel(bld *ir.Builder, v ssa.Value, depth int) bool {
 					return g.Pkg.Pkg.Path() == load.ModPath+"/cvsserr"
 				}
 			}
-			return e.singleSentinel(bld, a, depth+1)
+			return e.singleSentinelSeen(bld, a, depth+1, seen)
 		}
 		return e.moduleErrorSource(x)
 	}
@@ -603,7 +615,7 @@ func c12(e *Env) {
 	}
 	e.boundsRules()
 	e.noExplicitFailure()
-	e.keepRules("promoted-methods", "struct-layout", "bounds", "constructor-fresh", "constructor-default", "nil-receiver", "nil-receiver-decode", "no-explicit-failure", "result-exclusive", "validity-coverage", "score-gate", "encode-error", "encode-nil", "valid-chain", "token-shape", "decode-one", "decoder-analysis", "decode-skeleton")
+	e.keepRules("group-emptiness", "promoted-methods", "struct-layout", "bounds", "constructor-fresh", "constructor-default", "nil-receiver", "nil-receiver-decode", "no-explicit-failure", "result-exclusive", "validity-coverage", "score-gate", "encode-error", "encode-nil", "valid-chain", "token-shape", "decode-one", "decoder-analysis", "decode-skeleton")
 	c.Floor("bounds", 20)
 	c.Floor("nil-receiver", 40)
 	c.Floor("result-exclusive", 30)
@@ -839,20 +851,11 @@ func (e *Env) boundsRules() {
 					}
 					continue
 				}
-				// loop variable of a canonical range loop:  i+1 < len(x) on the dominating edge, i from -1
+				// loop variable of a loop over all elements (0 <= start <= i < len(x))
 				okLoop := false
-				if inc, ok := index.(*ssa.BinOp); ok && inc.Op == token.ADD && isIntConst(inc.Y, 1) {
-					for _, g := range ir.DomConds(bld, b) {
-						if g.Op == ir.OBin && g.Str == "<" && g.Args[0].Key() == bld.Term(index).Key() && g.Args[1].Key() == lenOf(xt).Key() {
-							if phi, ok := inc.X.(*ssa.Phi); ok {
-								okLoop = true
-								for _, ed := range phi.Edges {
-									if ed != ssa.Value(inc) && !isIntConst(ed, -1) {
-										okLoop = false
-									}
-								}
-							}
-						}
+				if ia, isIA := in.(*ssa.IndexAddr); isIA {
+					if lp, _ := analyseIndexLoop(ia); lp != nil && lp.Header.Dominates(b) && b != lp.Header {
+						okLoop = true
 					}
 				}
 				if okLoop {
@@ -993,13 +996,13 @@ func (e *Env) writeOwnership(v *spec.Version, ls []*facts.Level) {
 	c := e.C
 	owner := map[*types.Var]*facts.Level{}
 	for _, l := range ls {
-		for _, f := range l.Metrics {
-			owner[f] = l
+		// every field declared in the level's struct, including ones the specification does not know
+		// (a cached score, a scratch value): whatever a level keeps is its own decoder's business
+		for i := 0; i < l.Struct.NumFields(); i++ {
+			if f := l.Struct.Field(i); !f.Embedded() {
+				owner[f] = l
+			}
 		}
-		if l.VerField != nil {
-			owner[l.VerField] = l
-		}
-		owner[l.Names] = l
 	}
 	writers := map[*types.Var]map[string]bool{}
 	for _, fn := range e.F.Effects().All {
